@@ -3,8 +3,17 @@
 #include <string.h>
 // state: 40 bytes = a counter of blobs seen so far + filler (always > 24 bytes: heap state)
 typedef struct { unsigned char bytes[40]; } S;
-void *tree_sitter_c08scan_external_scanner_create(void) { S *s = calloc(1, sizeof(S)); for (int i = 1; i < 40; i++) s->bytes[i] = (unsigned char)(i * 7); return s; }
-void tree_sitter_c08scan_external_scanner_destroy(void *p) { free(p); }
+// Number of scanner instances created and not yet destroyed (create/destroy pairing is observable:
+// the payload is allocated by the scanner, not through the library's allocator).
+static int live_instances = 0;
+int tree_sitter_c08scan_scanner_live(void) { return __atomic_load_n(&live_instances, __ATOMIC_SEQ_CST); }
+void *tree_sitter_c08scan_external_scanner_create(void) {
+  S *s = calloc(1, sizeof(S));
+  for (int i = 1; i < 40; i++) s->bytes[i] = (unsigned char)(i * 7);
+  __atomic_add_fetch(&live_instances, 1, __ATOMIC_SEQ_CST);
+  return s;
+}
+void tree_sitter_c08scan_external_scanner_destroy(void *p) { __atomic_sub_fetch(&live_instances, 1, __ATOMIC_SEQ_CST); free(p); }
 unsigned tree_sitter_c08scan_external_scanner_serialize(void *p, char *b) { memcpy(b, p, sizeof(S)); return sizeof(S); }
 void tree_sitter_c08scan_external_scanner_deserialize(void *p, const char *b, unsigned n) {
   S *s = p; memset(s, 0, sizeof(S)); for (int i = 1; i < 40; i++) s->bytes[i] = (unsigned char)(i * 7);
